@@ -324,14 +324,14 @@ class Gen:
             self.f("ext-bool-used"); return r.choice(be)[1]
         if u < 0.90 and fe:
             self.f("ext-float-used"); return "%s %s %s" % (r.choice(fe)[1], r.choice(["<", ">=", "=="]), r.choice(["0.5", "1.5", "-2.0", "100.25"]))
-        if u < 0.94 and rules_before:
+        if u < 0.93 and rules_before:
             v = r.random()
             if v < 0.6:
                 self.f("rule-ref"); return r.choice(rules_before)
             self.f("rule-set")
             self.wild = True   # later rule names must not match the wildcard
             return "%s of (%s)" % (r.choice(["any", "all", "1"]), r.choice([rules_before[0][0] + "*", ", ".join(r.sample(rules_before, min(2, len(rules_before))))]))
-        if u < 0.97 and self.imports:
+        if u < 0.99 and self.imports:
             m = r.choice(sorted(self.imports))
             self.f("module-" + m)
             table = {
